@@ -37,33 +37,28 @@ type OptI struct {
 	E   int  `json:"e"` // anchor: 0 = the ordinary range, others = extreme anchors (see farTime / farDur)
 }
 type WK struct {
-	P  bool `json:"p"`
-	Ts OptI `json:"ts"`
-	Du OptI `json:"du"`
-	Uk int  `json:"uk"` // unknown field 1000 (varint) carried by the nested message itself, 0 = none
+	P  bool  `json:"p"`
+	Ts OptI  `json:"ts"`
+	Du OptI  `json:"du"`
+	Uk []int `json:"uk"` // unknown fields carried by the nested message itself (layout, see unknown)
 }
 type NN struct {
-	P  bool `json:"p"`
-	A  int  `json:"a"`
-	Fl Flt  `json:"fl"`
-	Ts OptI `json:"ts"`
-	Uk int  `json:"uk"` // unknown field 1000 of .corecursive
+	P  bool  `json:"p"`
+	A  int   `json:"a"`
+	Fl Flt   `json:"fl"`
+	Ts OptI  `json:"ts"`
+	Uk []int `json:"uk"` // unknown fields of .corecursive
 }
 type U struct {
 	K   int `json:"k"`
 	Ui  int `json:"ui"`
 	Una int `json:"una"`
 }
-type Unk struct {
-	A    int  `json:"a"`
-	B    int  `json:"b"`
-	Swap bool `json:"swap"`
-}
 type Ch struct {
-	Nm int  `json:"nm"`
-	Ct OptI `json:"ct"`
-	On int  `json:"on"`
-	Uk int  `json:"uk"` // unknown field 1000 of the Change message
+	Nm int   `json:"nm"`
+	Ct OptI  `json:"ct"`
+	On int   `json:"on"`
+	Uk []int `json:"uk"` // unknown fields of the Change message
 }
 type Msg struct {
 	Ty string `json:"ty"`
@@ -77,14 +72,14 @@ type Msg struct {
 		K1 OptF `json:"k1"`
 		K2 OptF `json:"k2"`
 	} `json:"mf"`
-	Wk  WK   `json:"wk"`
-	Rw  []WK `json:"rw"`
-	Mw  WK   `json:"mw"`
-	Nn  NN   `json:"nn"`
-	U   U    `json:"u"`
-	Unk Unk  `json:"unk"`
-	Ch  []Ch `json:"ch"`
-	Act OptI `json:"act"`
+	Wk  WK    `json:"wk"`
+	Rw  []WK  `json:"rw"`
+	Mw  WK    `json:"mw"`
+	Nn  NN    `json:"nn"`
+	U   U     `json:"u"`
+	Unk []int `json:"unk"`
+	Ch  []Ch  `json:"ch"`
+	Act OptI  `json:"act"`
 }
 
 // Cm is one value comparer: float(fraction a/8, margin b/8), time(a units),
@@ -269,27 +264,21 @@ func (e embed) wk(w WK) *testproto.WellKnown {
 	return m
 }
 
-// setUnknown gives a (nested) message the unknown varint field 1000 = v.
-func setUnknown(m proto.Message, v int) {
-	if v != 0 {
-		m.ProtoReflect().SetUnknown(unknown(Unk{A: v}))
+// setUnknown gives a (nested) message the unknown fields of the layout.
+func setUnknown(m proto.Message, layout []int) {
+	if len(layout) > 0 {
+		m.ProtoReflect().SetUnknown(unknown(layout))
 	}
 }
 
-func unknown(u Unk) []byte {
-	var a, b []byte
-	if u.A != 0 {
-		a = protowire.AppendTag(nil, 1000, protowire.VarintType)
-		a = protowire.AppendVarint(a, uint64(u.A))
+// unknown encodes a layout: entry 10*n + v is the varint v under field number 1000 + n, in wire order.
+func unknown(layout []int) []byte {
+	var raw []byte
+	for _, e := range layout {
+		raw = protowire.AppendTag(raw, protowire.Number(1000+e/10), protowire.VarintType)
+		raw = protowire.AppendVarint(raw, uint64(e%10))
 	}
-	if u.B != 0 {
-		b = protowire.AppendTag(nil, 1001, protowire.VarintType)
-		b = protowire.AppendVarint(b, 1)
-	}
-	if u.Swap {
-		return append(b, a...)
-	}
-	return append(a, b...)
+	return raw
 }
 
 // conc builds the concrete message an abstract one stands for (a fresh one on every call).
